@@ -1384,6 +1384,7 @@ pub fn run_longlived_born(initial: &State, ops: &[&Op], cfgs: &[Cfg], differenti
                 let mk_case = || {
                     let mut c = case_json_from(initial, &ops[..=k], cfgs);
                     c["long_lived"] = json!(true);
+                    c["differential"] = json!(differential);
                     if born_v0 {
                         c["born"] = json!("v0");
                     }
@@ -1527,7 +1528,9 @@ pub fn replay_case(case: &Value, cfgs: &[Cfg]) -> Result<Vec<Found>, String> {
     if case["long_lived"].as_bool() == Some(true) {
         let parsed: Vec<Op> = ops.iter().map(|o| op_from_json(o, cfgs)).collect::<Result<_, _>>()?;
         let refs: Vec<&Op> = parsed.iter().collect();
-        let (_, found) = run_longlived_born(&st, &refs, cfgs, true, true, case["born"].as_str() == Some("v0"))?;
+        // with the restart differential only if the run that found the case used it (it ends a history
+        // at the first step where the uninterrupted and the restarted server part ways)
+        let (_, found) = run_longlived_born(&st, &refs, cfgs, case["differential"].as_bool().unwrap_or(false), true, case["born"].as_str() == Some("v0"))?;
         clock::unset();
         return Ok(found);
     }
